@@ -164,6 +164,27 @@ def handlers(emit, repo):
                     f.write(" %r: " % n)
                     f.write(str(d).replace("[[", "[\n[").replace("], ", "],\n"))
                     f.write(",\n" if i < len(names) - 1 else "\n}\n")
+            elif style == 2:    # arithmetic in the file: probabilities written as fractions, line comments inside lists
+                from fractions import Fraction
+
+                def lit(v, depth=0):
+                    if isinstance(v, float):
+                        fr = Fraction(v).limit_denominator(10 ** 7)
+                        if fr.denominator != 1 and fr.numerator / fr.denominator == v:
+                            return "%d/%d" % (fr.numerator, fr.denominator)
+                        return repr(v)
+                    if isinstance(v, list):
+                        return "[" + ", ".join(lit(x, depth + 1) for x in v) + ("," if v and depth == 0 else "") + "]"
+                    if isinstance(v, tuple):
+                        return "(" + ", ".join(lit(x, depth + 1) for x in v) + ("," if len(v) == 1 else "") + ")"
+                    return repr(v)
+                f.write("# probabilities as fractions\n{\n")
+                for n, d in zip(names, descs):
+                    f.write("\n  %r : {   # %s\n" % (n, n))
+                    for k in [x for x in ("rewards", "players", "transition_list", "final_states", "prune_states") if x in d]:
+                        f.write("      %r :\n          %s ,\n" % (k, lit(d[k])))
+                    f.write("  } ,\n")
+                f.write("\n}\n# end\n")
             else:               # hand-written style: comments, one field per line, trailing commas
                 f.write("# hand-made input\n{\n")
                 for n, d in zip(names, descs):
